@@ -1,7 +1,7 @@
 """C15 - compression codecs are lossless (two clauses + layout agreement; DESIGN §5 C15)."""
 import re
 from .facts import short_id, CheckerError
-from .flow import FlowCx, callee_name
+from .flow import FlowCx, callee_name, find_aggregates
 from .panics import arith_traps
 from . import common
 
@@ -126,6 +126,67 @@ def run(ctx):
     ci = P.fn("CompressedAdjacencyChunk::iter")
     ctx.ob("R4", "CompressedAdjacencyChunk::iter#zips", any((t["f"] or "").endswith("Iterator::zip") for g in P.family(ci) for bi, t in g.calls()),
            what="CompressedAdjacencyChunk::iter does not zip destinations with edge ids", where=ci.loc())
+
+    # ---- R6 clamping arithmetic is lossy: a difference computed with saturating_sub is only the true difference when
+    # the input is sorted. (a) every saturating_* on two data-dependent payload operands in the codec modules sits in an
+    # encoder whose documented precondition is sorted input; (b) every caller of such an encoder establishes the
+    # precondition: the codec selector offers the delta codec only under its sortedness test, and the adjacency chunk
+    # sorts what it feeds in. The signed codec has no precondition and must use the modular pair
+    # wrapping_sub / wrapping_add (or overflowing_*): a clamped delta decodes to a different value.
+    SORTED_ENCODERS = {"DeltaEncoding::encode": "documented: values must be sorted ascending (debug_assert); unsorted data goes to encode_signed",
+                       "DeltaBitPacked::encode": "documented: encodes sorted values; callers are checked by R6(b)"}
+    nsat = 0
+    for f in sorted(P.fns.values(), key=lambda f: (f.file, f.line)):
+        if not in_mods(f) or "::tests::" in f.id:
+            continue
+        for bi, t in f.calls():
+            nm = callee_name(t).split("::")[-1]
+            if nm in ("saturating_sub", "saturating_add", "saturating_mul") and not any(a[0] == "k" for a in t["args"]) \
+                    and any(x in callee_name(t) for x in ("impl u64", "impl i64", "impl u32", "impl i32")):
+                nsat += 1
+                root = short_id(f.parent) if f.kind == "closure" and f.parent else short_id(f.id)
+                ctx.ob("R6", "%s#%s" % (root, nm), root in SORTED_ENCODERS,
+                       what=("exception: " + SORTED_ENCODERS[root]) if root in SORTED_ENCODERS else
+                            "%s computes a payload difference/sum with %s: values whose step does not fit are clamped, so the "
+                            "decoder (which adds the deltas back) returns other numbers than were stored" % (short_id(f.id), nm),
+                       where=f.loc(t["line"]))
+    ctx.floor("R6", nsat, 2, "clamping arithmetic sites in the codec modules")
+    for fn_name, op, inv in (("DeltaEncoding::encode_signed", "sub", None), ("DeltaEncoding::decode_signed", "add", None), ("DeltaEncoding::decode", "add", None)):
+        f = P.fn(fn_name)
+        fam = list(P.family(f))
+        modular = any(callee_name(t).endswith(("::wrapping_" + op, "::overflowing_" + op)) for g in fam for bi, t in g.calls())
+        lossy = [callee_name(t).split("::")[-1] for g in fam for bi, t in g.calls()
+                 if callee_name(t).split("::")[-1] in ("saturating_" + op, "checked_" + op) and not any(a[0] == "k" for a in t["args"])]
+        ctx.ob("R6", "%s#modular-%s" % (fn_name, op), modular and not lossy,
+               what="%s must compute its %s modulo 2^64 (wrapping_%s); found %s: for steps that do not fit in the integer type "
+                    "encode and decode are no longer inverse" % (fn_name, "differences" if op == "sub" else "sums", op, lossy or "no modular form"),
+               where=f.loc())
+    sel = P.fn("CodecSelector::select_for_integers")
+    sx = FlowCx(P, sel)
+    dsel = find_aggregates(sel, "CompressionCodec", "DeltaBitPacked")
+    ctx.floor("R6", len(dsel), 1, "places where the selector offers DeltaBitPacked")
+    for bi, si, rv, ln in dsel:
+        ok = any(x[0] == "call" and x[2] is True and (x[1].endswith("is_sorted") or
+                 (x[1].endswith("::all") and any(("bin:Le" in a or "bin:Lt" in a) for a in x[3]))) for x in sx.facts_at(bi))
+        ctx.ob("R6", "CodecSelector::select_for_integers#delta-only-if-sorted", ok,
+               what="the codec selector offers DeltaBitPacked without having tested that the values are sorted: the delta encoder "
+                    "clamps negative steps to zero and the column decodes to other values", where=sel.loc(ln))
+    ci = P.fn("TypeSpecificCompressor::compress_integers")
+    cix = FlowCx(P, ci)
+    for bi, t in ci.calls():
+        if short_id(callee_name(t)) in SORTED_ENCODERS:
+            ok = any(x[0] == "variant" and x[1].endswith("CompressionCodec") and x[2] == "DeltaBitPacked" and
+                     any(tg.endswith("select_for_integers") for tg in x[3]) for x in cix.facts_at(bi))
+            ctx.ob("R6", "TypeSpecificCompressor::compress_integers#delta-under-selector", ok,
+                   what="compress_integers calls the sorted-input delta encoder on a path not chosen by the codec selector", where=ci.loc(t["line"]))
+    real_sorts = set()
+    for bi, t in ac.calls():
+        if callee_name(t).split("::")[-1] in ("sort", "sort_by", "sort_by_key", "sort_unstable", "sort_unstable_by", "sort_unstable_by_key") and t["args"]:
+            real_sorts |= {x for x in acx.tags(t["args"][0]) if x.startswith("var:") and x != "var:self"}
+    for bi, t in enc:
+        if short_id(callee_name(t)) in SORTED_ENCODERS:
+            ctx.ob("R6", "AdjacencyChunk::compress#sorted-input", bool(acx.tags(t["args"][0]) & real_sorts),
+                   what="AdjacencyChunk::compress feeds the sorted-input delta encoder from a sequence it has not sorted", where=ac.loc(t["line"]))
 
     # ---- R2 dual hot/compressed reads
     n2 = 0
